@@ -90,7 +90,8 @@ def gen_windows(rng, env, n_windows):
             supplied = 4 * ndata
             for _k in range(rng.choice([0, 1, 1, 1, 2])):
                 nfr = rng.choice([0, 1, max(0, supplied - 1), supplied, supplied + 1, supplied + 7, 2 ** 63])
-                nested.append(ev(C('PERF_STK_UHdr'), [rng.choice([1, 5, 0x1ff, rng.getrandbits(12)]), nfr, 0, 0], 0, tid))
+                nested.append(ev(C('PERF_STK_UHdr'), [rng.choice([1, 5, 0x1ff, rng.getrandbits(12)]), nfr,
+                                                       rng.choice([0, 0, 1, 3, rng.getrandbits(8)]), rng.choice([0, 0, 2, rng.getrandbits(8)])], 0, tid))
             for _k in range(ndata):
                 nested.append(ev(C('PERF_STK_UData'), [frame() for _ in range(4)], 0, tid))
             for _k in range(rng.choice([0, 1, 2])):
@@ -110,6 +111,11 @@ def gen_windows(rng, env, n_windows):
                                    rng.getrandbits(16), rng.randint(1, 500)], rng.choice([0, 0, 1, 2]), tid))
             w.append(ev(C('MACH_vmfault'), [0, 0, rng.choice([0, 0, 0, 1, 5]), rng.choice(env.ft_vals)], 2, tid))
             ws.append(w)
+        elif r < 0.96:
+            # records of the image family that are NOT announcements of a loaded image: an unmap notice, a shared-cache record
+            # outside a launch window (same layout as a map record, addresses of the same pool)
+            nm = rng.choice(['DYLD_uuid_unmap_a', 'DYLD_uuid_shared_cache_a'])
+            ws.append([ev(C(nm), [rng.getrandbits(64), rng.getrandbits(64), addr(), rng.getrandbits(8)], 0, tid)])
         else:
             ws.append([ev(C('BSC_read'), [3, 0x1000, 16, 0], 1, tid), ev(C('BSC_read'), [0, 16, 0, 0], 2, tid)])
     return ws
